@@ -231,14 +231,20 @@ Theorem C18_alias_nbytes am s :
   snd (alias_read am QNbytes s) = snd (read QNbytes s).
 Proof. exact (alias_nbytes am s). Qed.
 
-(* kept finding: `in` is not wrapped - it answers False for an alias whose variable it answers True for, although item access
-   through the two names is the same *)
-Theorem C18_alias_not_a_member_refuted :
-  exists am s n, WFam am /\ Inv s /\ In n (akeys (amap am)) /\
-    snd (alias_read am (QContains (resolve am n)) s) = Ret (VBool true) /\
-    snd (alias_read am (QContains n) s) = Ret (VBool false) /\
-    alias_getitem am (KName n) s = alias_getitem am (KName (resolve am n)) s.
-Proof. exact alias_not_a_member_refuted. Qed.
+(* `name in m` (fix 0f38318): for an alias the membership of its variable, for any other name the plain object's answer; two names of one
+   variable get the same answer; a name that is a member can be read by item access *)
+Theorem C18_alias_contains am n s :
+  snd (alias_read am (QContains n) s) = snd (read (QContains (resolve am n)) s) /\
+  (~ In n (akeys (amap am)) -> snd (alias_read am (QContains n) s) = snd (read (QContains n) s)).
+Proof. exact (alias_contains am n s). Qed.
+
+Theorem C18_alias_contains_same_target am n1 n2 s :
+  resolve am n1 = resolve am n2 -> snd (alias_read am (QContains n1) s) = snd (alias_read am (QContains n2) s).
+Proof. exact (alias_contains_same_target am n1 n2 s). Qed.
+
+Theorem C18_alias_member_is_readable am n s :
+  Inv s -> snd (alias_read am (QContains n) s) = Ret (VBool true) -> alias_getitem am (KName n) s <> Raise KeyError.
+Proof. exact (alias_member_is_readable am n s). Qed.
 
 (* ---------------------------------------------------------------- to_dataframe(use_aliases=True) *)
 (* never raises on a constructed object (the ambiguity is rejected by __init__), one column per exported variable *)
@@ -311,7 +317,10 @@ Print Assumptions C18_alias_hooks_change_nothing.
 Print Assumptions C18_alias_completions_declared.
 Print Assumptions C18_alias_dir.
 Print Assumptions C18_alias_nbytes.
-Print Assumptions C18_alias_not_a_member_refuted.
+Print Assumptions C18_alias_contains.
+Print Assumptions C18_alias_contains_same_target.
+Print Assumptions C18_alias_member_is_readable.
+Print Assumptions alias_is_a_member.
 Print Assumptions hooks_on_mA.
 Print Assumptions C18_export_total.
 Print Assumptions C18_export_rename_only.
